@@ -214,6 +214,13 @@ theorem C17_modelSolve_contract {brk : Bool} {x : Nat} {e1 e2 : IExpr} {s : Poly
       · cases h
     · cases h
 
+/-- `solve` is a pure function of (e1, e2, unknown): in any call history the answer to a query is the answer to that
+query alone, whatever was asked before or after.  (The model has no state; the correspondence check plays call
+histories against the real code to detect state there, e.g. a cache keyed without the unknown.) -/
+theorem C17_solve_history_independent (pre post : List SolveQuery) (q : SolveQuery) :
+    (solveHistory (pre ++ q :: post))[pre.length]? = some (modelSolve q.brk q.x q.e1 q.e2) := by
+  simp [solveHistory, solveAnswer]
+
 /-- `expand` on the fragment returns a polynomial with the value of the original expression. -/
 theorem C17_expand_preserves {brk : Bool} {e : IExpr} {p : Poly} (hf : frag brk e = true)
     (h : modelExpand brk e = some p) (ρ : Env) : evalPoly p (liftEnv ρ) = (evalF e ρ : Rat) := by
